@@ -1,9 +1,9 @@
 ------------------------------ MODULE LroTrace ------------------------------
 (***************************************************************************)
 (* Batched trace validation for Lro (code -> spec).  TRACE_FILE holds      *)
-(*   [ {c:{ann,out,rsp:{kind,site},mta:{kind,site},fld,form}, h:{k,outcome,*)
-(*      value,code}, mode, events:[{ev,kind,resp,meta,err,rpc,chan,name,    *)
-(*      future,type,value,mtype,mvalue,code}..]} .. ]                      *)
+(*   [ {c:{ann,out,rsp:{kind,site,encl},mta:{..},fld,form}, h:{k,outcome,  *)
+(*      value,code}, mode, inst, events:[{ev,kind,resp,meta,err,rpc,chan,  *)
+(*      name,future,type,value,mtype,mvalue,code}..]} .. ]                 *)
 (* events:  gen / genfail  from the generator (Method hook event, raised    *)
 (* exception);  start / poll  from the loopback server + the log of the    *)
 (* one recorded channel;  wrap / resolve / fail / return  from the caller  *)
@@ -20,16 +20,16 @@ tvars == <<vars, tid, l>>
 Ev == Traces[tid].events
 
 CaseOf(t) == [ann |-> Traces[t].c.ann, out |-> Traces[t].c.out,
-              rsp |-> [kind |-> Traces[t].c.rsp.kind, site |-> Traces[t].c.rsp.site],
-              mta |-> [kind |-> Traces[t].c.mta.kind, site |-> Traces[t].c.mta.site],
+              rsp |-> [kind |-> Traces[t].c.rsp.kind, site |-> Traces[t].c.rsp.site, encl |-> Traces[t].c.rsp.encl],
+              mta |-> [kind |-> Traces[t].c.mta.kind, site |-> Traces[t].c.mta.site, encl |-> Traces[t].c.mta.encl],
               fld |-> Traces[t].c.fld, form |-> Traces[t].c.form]
 HistOf(t) == [k |-> Traces[t].h.k, outcome |-> Traces[t].h.outcome, value |-> Traces[t].h.value, code |-> Traces[t].h.code]
-ResetFor(t) == /\ c' = CaseOf(t) /\ h' = HistOf(t) /\ mode' = Traces[t].mode
+ResetFor(t) == /\ c' = CaseOf(t) /\ h' = HistOf(t) /\ mode' = Traces[t].mode /\ inst' = Traces[t].inst
                /\ stage' = "load" /\ pos' = 0 /\ known' = {} /\ genres' = "pending" /\ lro' = [resp |-> "", meta |-> ""]
                /\ phase' = "idle" /\ cur' = 0 /\ calls' = <<>> /\ future' = ""
                /\ seenMeta' = [type |-> "", value |-> 0] /\ result' = [type |-> "", value |-> 0] /\ raised' = 0
 TInit == /\ tid = 1 /\ l = 1 /\ TLCSet(1, 0) /\ TLCSet(2, <<0, 0>>)
-         /\ c = CaseOf(1) /\ h = HistOf(1) /\ mode = Traces[1].mode
+         /\ c = CaseOf(1) /\ h = HistOf(1) /\ mode = Traces[1].mode /\ inst = Traces[1].inst
          /\ stage = "load" /\ pos = 0 /\ known = {} /\ genres = "pending" /\ lro = [resp |-> "", meta |-> ""]
          /\ phase = "idle" /\ cur = 0 /\ calls = <<>> /\ future = ""
          /\ seenMeta = [type |-> "", value |-> 0] /\ result = [type |-> "", value |-> 0] /\ raised = 0
